@@ -37,11 +37,14 @@ def asEnv (j : Json) : R Env := do
   let exitAt ← optRatF j "exitAt"
   let pat ← optF (asList asBool) j "eintr"
   let pat := pat.getD []
-  pure { kind := kind, exitAt := exitAt, eintr := fun n => pat.getD n false }
+  -- calls beyond the listed ones are interrupted iff `eintrTail`
+  let tail := (← optF asBool j "eintrTail").getD false
+  pure { kind := kind, exitAt := exitAt, eintr := fun n => pat.getD n tail }
 
 def eintrFree (j : Json) : R Bool := do
   let pat ← optF (asList asBool) j "eintr"
-  pure (!(pat.getD []).any id)
+  let tail := (← optF asBool j "eintrTail").getD false
+  pure (!(pat.getD []).any id && !tail)
 
 def jOutcome : Outcome → Json
   | .code c => jObj [("kind", "code"), ("v", jInt c)]
